@@ -2,7 +2,7 @@
 EXTENDS Sig, FkCases
 
 Locs3 == {"en", "fr", "de"}
-KindNames == {"text", "num", "varx", "vary_compb", "range_u8", "range_i8", "plural", "plural_renamed", "range_fk_renamed", "null"}
+KindNames == {"text", "num", "varx", "vary_compb", "comp_only", "comp_nested_only", "comp_var_only", "range_u8", "range_i8", "plural", "plural_renamed", "range_fk_renamed", "null"}
 
 RangeOf(ty, tag) == [k |-> "ranges", ty |-> ty, ck |-> Cnt,
                      b |-> << [alts |-> <<Exact(2)>>, v |-> <<T(tag \o <<"1">>), V(X)>>], [alts |-> <<Wild>>, v |-> <<T(tag \o <<"2">>), V(Cnt)>>] >>]
@@ -17,6 +17,9 @@ EntryFor(kind, x) ==
       [] kind = "num" -> Val(<<T(<<"5">>)>>)
       [] kind = "varx" -> Val(<<T(tag), V(X)>>)
       [] kind = "vary_compb" -> Val(<<Comp(<<"b">>, <<V(Y)>>), T(tag)>>)
+      [] kind = "comp_only" -> Val(<<Comp(<<"b">>, <<T(tag)>>)>>)                              \* the whole value is one component around plain text
+      [] kind = "comp_nested_only" -> Val(<<Comp(<<"i">>, <<Comp(<<"b">>, <<T(tag)>>)>>)>>)
+      [] kind = "comp_var_only" -> Val(<<Comp(<<"a">>, <<V(Y)>>)>>)
       [] kind = "range_u8" -> RangeOf("u8", tag)
       [] kind = "range_i8" -> RangeOf("i8", tag)
       [] kind = "plural" -> PluralOf(tag)
